@@ -65,6 +65,8 @@ var (
 		"https//example.com", "://example.com", "1https://example.com", "https://", "", "https://*.", "https://*",
 		"https://" + strings.Repeat("a", 64) + ".com", "https://" + longHost(254, 'a'), "\x00", "https://exa\x00mple.com",
 		"https://xn--a.com", "https://[::1]", "https://127.0.0.1",
+		// two defects in one pattern: the Reason is that of the check that comes first
+		"http://[::ffff:1.2.3.4%eth0]", "http://[0:0::1%eth0]:8080", "http://[FE80::1%eth2]", "https://1.2.3.4:443", "https://127.0.0.1:443", "https://[::1]:443", "https://1.2.3.4:0443", "file://example.com:80",
 		"https://*." + longHost(251, 'a') + ".", "https://*." + longHost(252, 'a'), "https://" + longHost(254, 'a') + ".", // one byte over each length limit
 	}
 	// hosts with ACE labels: acceptance is decided by the IDNA profile (oracle); well-formed, Bidi-violating, bogus
